@@ -24,7 +24,7 @@ RULE = ('Hypothesis state machine over a generated budget directory (old ./confi
         'at new paths; no rules file changes without --migrate, and with it every pre-existing file\'s content survives (same path or '
         'backup). Non-trivial = >=2 commands incl. init or --migrate on a budget with >=1 pre-existing config file.')
 ASSUMPTIONS = ['commands run non-interactively (stdin/stdout are not ttys)', 'the output location is the configured output folder (also used for -o in this check)']
-REQUIRED_CLASSES = ['init_on_existing', 'up_migrate', 'legacy_csv_present', 'existing_bak', 'old_layout', 'new_layout']
+REQUIRED_CLASSES = ['init_on_existing', 'up_migrate', 'legacy_csv_present', 'existing_bak', 'old_layout', 'new_layout', 'crlf_files']
 
 SETTINGS_BASE = 'year: 2024\ndata_sources:\n  - name: Bank\n    file: data/bank.csv\n    format: "{date:%Y-%m-%d},{description},{amount}"\n'
 RULES_TXT = '# my rules\n[Netflix]\nmatch: contains("NETFLIX")\ncategory: Subscriptions\nsubcategory: Streaming\ntags: recurring\n'
@@ -39,6 +39,7 @@ shape_st = st.fixed_dictionaries({
     'rules': st.sampled_from(['absent', 'present', 'present']),
     'csv': st.sampled_from(['absent', 'rules', 'rules', 'empty']),
     'bak': st.booleans(), 'views': st.booleans(), 'notes': st.booleans(), 'old_report': st.booleans(), 'data': st.booleans(),
+    'crlf': st.sampled_from([False, False, True]),
 })
 
 COMMANDS = [
@@ -58,7 +59,8 @@ class Folder:
         self.shape = shape
         self.base = self.bd.root if shape['layout'] == 'old' else os.path.join(self.bd.root, 'tally')
         os.makedirs(self.base, exist_ok=True)
-        w = lambda rel, text: self.bd.write(os.path.relpath(os.path.join(self.base, rel), self.bd.root), text)
+        crlf = shape.get('crlf', False)
+        w = lambda rel, text: self.bd.write(os.path.relpath(os.path.join(self.base, rel), self.bd.root), text.replace('\n', '\r\n') if crlf else text)
         s = shape['settings']
         if s != 'absent':
             text = SETTINGS_BASE
@@ -151,6 +153,8 @@ class Machine(RuleBasedStateMachine):
             self.classes.add('legacy_csv_present')
         if shape['bak']:
             self.classes.add('existing_bak')
+        if shape.get('crlf'):
+            self.classes.add('crlf_files')
         self.pre_config = any(shape[k] not in ('absent', False) for k in ('settings', 'rules', 'csv', 'views'))
 
     @precondition(lambda self: self.folder is not None)
